@@ -274,6 +274,36 @@ pub fn check_case_tagged(shape: &Shape, val: &Val, r: &mut Report, tag: Option<&
     }
 }
 
+const MANTISSAS: [u64; 16] = [
+    0, 1, 2, 3, 0xF_FFFF_FFFF_FFFF, 0xF_FFFF_FFFF_FFFE, 0x8_0000_0000_0000, 0x5_5555_5555_5555, 0xA_AAAA_AAAA_AAAA, 0x1_2345_6789_ABCD, 0x3_243F_6A88_85A3, 0xB_7E15_1628_AED2, 0x9_E377_9B97_F4A7, 0x6_A09E_667F_3BCD,
+    0x7_FFFF_FFFF_FFFF, 0x0_0000_0000_FFFF,
+];
+
+/// finite doubles: every (thorough) or every 7th (quick) biased exponent x mantissa patterns x sign
+pub fn double_grid(thorough: bool) -> Vec<u64> {
+    let mut out = vec![];
+    let step = if thorough { 1 } else { 7 };
+    let mut e = 0u64;
+    while e < 2047 {
+        for m in MANTISSAS {
+            for sign in [0u64, 1] {
+                out.push((sign << 63) | (e << 52) | m);
+            }
+        }
+        e += step;
+    }
+    out
+}
+
+fn double_class(bits: u64) -> &'static str {
+    match (bits >> 52) & 0x7ff {
+        0 => "subnormal",
+        1..=700 => "tiny",
+        701..=1200 => "middle",
+        _ => "huge",
+    }
+}
+
 pub const SIZE_KINDS: [&str; 10] = ["binary", "binary-key", "list<binary>", "optional<binary>", "struct{binary}", "string", "string-key", "list<i32>*n", "map<i32,bool>*n", "list<string>*n"];
 
 /// lengths around every power of two and multiple-of-three block boundary
@@ -413,6 +443,28 @@ pub fn run(args: &Args) -> Report {
     report.extra.insert("size_cases".into(), json!(sized.states));
     report.merge(sized);
 
+    // the double dimension: every binary exponent x 16 mantissa patterns x sign, as a value and as
+    // a map key + value (the JSON text of a double must parse back to exactly that double)
+    let bits = double_grid(args.tier.is_thorough());
+    let dbl = bits
+        .par_iter()
+        .fold(
+            || Report::new("C01", "model_checking"),
+            |mut r, b| {
+                let v = f64::from_bits(*b);
+                let tag = json!({"kind": "f64-bits", "n": b, "class": double_class(*b)});
+                check_case_tagged(&Shape::Leaf(Leaf::F64), &Val::F64(v), &mut r, Some(&tag));
+                check_case_tagged(&Shape::Map(Leaf::F64, Box::new(Shape::Leaf(Leaf::F64))), &Val::Map(vec![(Val::F64(v), Val::F64(v))]), &mut r, Some(&tag));
+                r
+            },
+        )
+        .reduce(|| Report::new("C01", "model_checking"), |mut a, b| {
+            a.merge(b);
+            a
+        });
+    report.extra.insert("double_grid_cases".into(), json!(dbl.states));
+    report.merge(dbl);
+
     // informational: serde shapes outside the Conjure model (never verdict-bearing)
     let mut info = Report::new("C01", "model_checking");
     for l in [Leaf::F32, Leaf::I128, Leaf::U128, Leaf::Char, Leaf::U64] {
@@ -449,6 +501,13 @@ fn replay(path: &str, mut report: Report) -> Report {
     // the case is identified by its shape text; re-run every value of that shape
     let v = vcommon::load_replay(path);
     if let Some(t) = v["case"].get("size_case") {
+        if t["kind"] == "f64-bits" {
+            let x = f64::from_bits(t["n"].as_u64().unwrap_or(0));
+            check_case_tagged(&Shape::Leaf(Leaf::F64), &Val::F64(x), &mut report, Some(t));
+            check_case_tagged(&Shape::Map(Leaf::F64, Box::new(Shape::Leaf(Leaf::F64))), &Val::Map(vec![(Val::F64(x), Val::F64(x))]), &mut report, Some(t));
+            report.exhaustive = false;
+            return report;
+        }
         if let Some((shape, val)) = sized_case(t["kind"].as_str().unwrap_or(""), t["n"].as_u64().unwrap_or(0) as usize) {
             check_case_tagged(&shape, &val, &mut report, Some(t));
         }
